@@ -126,8 +126,12 @@ def l2_trace(tid, Xi, k, init, seed, rng, dtype):
     kw = dict(n_clusters=k, init=init, n_init=3, max_iter=20, random_state=seed)
     with warnings.catch_warnings():
         warnings.simplefilter("ignore")
-        a = KMeansL1L2(norm="L2", **kw).fit(X)
-        b = KMeans(**kw).fit(X)
+        if rng.random() < 0.3:      # the seed given as a generator object: both consume it in the same way
+            a = KMeansL1L2(norm="L2", **dict(kw, random_state=numpy.random.RandomState(seed))).fit(X)
+            b = KMeans(**dict(kw, random_state=numpy.random.RandomState(seed))).fit(X)
+        else:
+            a = KMeansL1L2(norm="L2", **kw).fit(X)
+            b = KMeans(**kw).fit(X)
         P = numpy.array([[rng.randint(-1, 7) for _ in range(d)] for _ in range(6)], dtype=dtype)
         ev = dict(a="l2", eq_labels=bool(numpy.array_equal(a.labels_, b.labels_)),
                   eq_centers=bool(numpy.array_equal(a.cluster_centers_, b.cluster_centers_)),
@@ -136,6 +140,30 @@ def l2_trace(tid, Xi, k, init, seed, rng, dtype):
                   eq_transform=bool(numpy.array_equal(a.transform(P), b.transform(P))))
     return dict(id=tid, kind="l2", d=d, k=k, max_iter=10, X=[[2 * v for v in r] for r in Xi], init=[[0] * d] * k,
                 site=SITE2, sig="init=%s" % init, ev=[ev])
+
+
+def big_batches(ctx, rng):
+    """transform / predict on batches of thousands of rows (block-wise implementations have edges there): compared with
+    the Manhattan distances computed directly"""
+    from mlinsights.mlmodel import KMeansL1L2
+    for (n, k, d) in ((9001, 4, 2), (523, 10, 20), (70001, 2, 1)):
+        X = numpy.array([[rng.randint(0, 9) for _ in range(d)] for _ in range(60)], dtype=numpy.float64)
+        with warnings.catch_warnings():
+            warnings.simplefilter("ignore")
+            km = KMeansL1L2(n_clusters=k, norm="L1", n_init=2, random_state=0, max_iter=10).fit(X)
+            Q = numpy.array([[rng.randint(-2, 11) for _ in range(d)] for _ in range(n)], dtype=numpy.float64)
+            want = numpy.abs(Q[:, None, :] - km.cluster_centers_[None, :, :]).sum(axis=2)
+            ctx.evaluations += 1
+            try:
+                got = km.transform(Q)
+                lab = km.predict(Q)
+            except Exception as e:
+                ctx.violation("TransformIsManhattan", SITE, "batch of %d rows" % n, repr(e)[:200])
+                continue
+            if got.shape != want.shape or not numpy.allclose(got, want, rtol=0, atol=1e-9):
+                ctx.violation("TransformIsManhattan", SITE, "batch of %d rows" % n, "transform differs from the Manhattan distances")
+            if not numpy.allclose(want[numpy.arange(n), lab], want.min(axis=1), rtol=0, atol=1e-9):
+                ctx.violation("PredictIsNearest", SITE, "batch of %d rows" % n, "predict is not a nearest centre")
 
 
 RESULT_CLAUSES = {"NearestLabel", "InertiaIsSum", "CentresInBox", "PredictIsNearest", "TransformIsManhattan", "L2IsKMeans"}
@@ -246,6 +274,7 @@ def run(ctx):
             for e in t["ev"]:
                 if e.get("a") == "result" and e.get("untouched") is False:
                     ctx.violation("InputUntouched", SITE, t["sig"], "X modified by fit", case=t)
+    big_batches(ctx, rng)
     ctx.exhaustive = False
     ctx.rule = ("MC: every sorted data set on the lattice (1-D: <=5 points; 2-D 3x3: <=4 points) x k x every tuple of initial "
                 "centres on the lattice (duplicate centres -> empty clusters), relocation ties open. Spec->code: 1/%d of those "
